@@ -28,9 +28,12 @@ func Judge(cs Case, res Result) []Failure {
 	}
 	cfg := cs.Cfg
 	server := cs.St0&Received != 0
-	find := func(ns, loc int) int {
+	// the configured feature of that name: the first one the config function returns for a
+	// session in state st (the function is called for every negotiator call, state does not
+	// change between that call and the features list)
+	find := func(ns, loc int, st uint8) int {
 		for i, b := range cfg {
-			if b.NS == ns && b.Loc == loc {
+			if b.NS == ns && b.Loc == loc && b.Configured(st) {
 				return i
 			}
 		}
@@ -163,6 +166,21 @@ func Judge(cs Case, res Result) []Failure {
 			selRefuse = false
 		}
 
+		// ---- only features of the current stream config: the config function is called for every
+		// negotiator call, so the callbacks that run belong to features it returns for the state
+		// in which the current features list is written / read
+		switch {
+		case e.Kind == "L" && !cfg[e.F].Configured(e.St):
+			add("C01", "recv-advert", "not-configured", "%s: List of a feature the stream config function does not return for state %d", e.String(cfg), e.St)
+		case e.Kind == "P" && !cfg[e.F].Configured(e.St):
+			add("C01", "advertised", "not-configured", "%s: Parse of a feature the stream config function does not return for state %d", e.String(cfg), e.St)
+		case e.Kind == "N" && lists > 0 && !cfg[e.F].Configured(listSt):
+			key := "not-configured"
+			if server {
+				key = "receiver:" + key
+			}
+			add("C01", "advertised", key, "%s: Negotiate of a feature the stream config function does not return for the state %d of the current features list", e.String(cfg), listSt)
+		}
 		switch e.Kind {
 		case "Wh":
 			negd = map[int]bool{}
@@ -189,7 +207,7 @@ func Judge(cs Case, res Result) []Failure {
 						if a.Req {
 							advReq = append(advReq, fmt.Sprintf("%d.%d", a.NS, a.Loc))
 						}
-						if k := find(a.NS, a.Loc); k >= 0 {
+						if k := find(a.NS, a.Loc, listSt); k >= 0 {
 							if cfg[k].ParseErr {
 								break
 							}
@@ -236,7 +254,7 @@ func Judge(cs Case, res Result) []Failure {
 			cache = map[int]cacheEnt{}
 			var want []string
 			for k, b := range cfg {
-				if b.Eligible(e.St) {
+				if b.Configured(e.St) && b.Eligible(e.St) {
 					want = append(want, b.Name())
 					cache[b.NS] = cacheEnt{k, b.ListReq}
 				}
@@ -250,7 +268,7 @@ func Judge(cs Case, res Result) []Failure {
 				if len(got) < len(w) {
 					key = "missing"
 				}
-				add("C01", "recv-advert", key, "features list written at state %d is [%s], the configured features whose prerequisites hold are [%s]", e.St, strings.Join(e.Names, "+"), strings.Join(want, "+"))
+				add("C01", "recv-advert", key, "features list written at state %d is [%s], the currently configured features whose prerequisites hold are [%s]", e.St, strings.Join(e.Names, "+"), strings.Join(want, "+"))
 			}
 		case "N":
 			b := cfg[e.F]
@@ -377,7 +395,7 @@ func Judge(cs Case, res Result) []Failure {
 			for _, n := range advReq {
 				k := -1
 				for i, b := range cfg {
-					if b.Name() == n {
+					if b.Name() == n && b.Configured(listSt) {
 						k = i
 						break
 					}
